@@ -173,6 +173,28 @@ def run(prop, seed, tier):
                     fail('module:stems', repr(files), 'Stage/Twice sizes %r, documented (24, 8)' % ((m2.Stage._SIZE, m3.Twice._SIZE),))
             except Exception as ex:
                 fail('import:stems', repr(files), 'files named after their definitions: the generated modules do not import: %r' % ex)
+        # all files in ONE run, with C++ outputs: every generated header names every file its schema includes
+        if not bad:
+            outc = os.path.join(d, 'out_cpp')
+            os.makedirs(outc)
+            order = ['Color', 'Point', 'Shape', 'Scene', 'Stage', 'Twice']
+            _, e3, _ = lib.run_prophyc([os.path.join(d, nm + '.prophy') for nm in order] + ['--cpp_out', outc, '--cpp_full_out', outc, '--quiet'])
+            cases += 1
+            if e3:
+                fail('rejected:stems-cpp', repr(files), 'the files compiled in one run with C++ outputs: rejected: %s' % str(e3)[:200])
+            else:
+                import re
+                for nm in order:
+                    wanted = set(re.findall(r'#include "(\w+)\.prophy"', files[nm]))
+                    for ext in ('.pp.hpp', '.ppf.hpp'):
+                        try:
+                            text = open(os.path.join(outc, nm + ext)).read()
+                        except OSError:
+                            fail('cpp-include:stems', repr(files), '%s%s was not written' % (nm, ext))
+                            continue
+                        missing = [w for w in sorted(wanted) if '#include "%s%s"' % (w, ext) not in text]
+                        if missing:
+                            fail('cpp-include:stems', repr(files), '%s%s lacks the include line for %s (files compiled in one run)' % (nm, ext, missing))
         # error cases
         d = sc.path('errs')
         os.makedirs(d)
